@@ -17,7 +17,7 @@ import (
 func init() { Register("C16", "exploration", checkC16) }
 
 func checkC16(c *Ctx) error {
-	c.Rule = "seeded configurations carrying 0-5 injected defects drawn from {missing parameter, missing service, service cycle, parameter cycle, scope conflict, grammar error, token error} (several of one class allowed), each run with the four combinations of --ignore-missing-params / --ignore-missing-services; filter law: the ordered diagnostics under flags F equal the diagnostics without flags minus those of the ignored steps (steps identified by the report structure), exit 0 iff nothing remains, ignored steps are marked `ignored`, and a configuration accepted without flags yields byte-identical output under every combination. distinct = distinct configuration; non-trivial = at least one defect of an ignorable class and one of another class, or accepted without flags"
+	c.Rule = "seeded configurations carrying 0-5 (every seventh: 10-24, mostly of one step) injected defects drawn from {missing parameter, missing service, service cycle, parameter cycle, scope conflict, grammar error, token error} (several of one class allowed), each run with the four combinations of --ignore-missing-params / --ignore-missing-services; filter law: the ordered diagnostics under flags F equal the diagnostics without flags minus those of the ignored steps (steps identified by the report structure), exit 0 iff nothing remains, ignored steps are marked `ignored`, and a configuration accepted without flags yields byte-identical output under every combination. distinct = distinct configuration; non-trivial = at least one defect of an ignorable class and one of another class, or accepted without flags"
 	c.Assumptions = []string{"report structure (step END lines with counts) identifies which step a diagnostic belongs to"}
 	w := c.W
 	n := c.Pick(400, 20000)
@@ -36,10 +36,22 @@ func checkC16(c *Ctx) error {
 			k = 0
 		}
 		var kinds []string
+		many := i%7 == 3
+		if many {
+			// many diagnostics of one step (10-24) next to a few of the steps before and after it: the count of one step's
+			// diagnostics must not decide whether another step runs
+			k = 10 + r.Intn(15)
+		}
 		for j := 0; j < k; j++ {
 			kind := gen.DefectKinds[r.Intn(len(gen.DefectKinds))]
 			if r.Intn(2) == 0 {
 				kind = []string{"missing-param", "missing-service", "missing-mixed"}[r.Intn(3)]
+			}
+			if many {
+				kind = []string{"missing-param", "missing-service", "scope", "cycle-svc"}[(i/7)%4]
+				if j >= k-3 {
+					kind = []string{"missing-service", "missing-param", "missing-mixed", "scope", "cycle-param"}[r.Intn(5)]
+				}
 			}
 			gen.Inject(r, conf, kind, j)
 			kinds = append(kinds, kind)
